@@ -106,55 +106,88 @@ def run(ctx):
                           "(ck, ns) pairs / numbers and tREFI entries are plain nanosecond numbers", 60)
     ob6 = ctx.ob("C16.6", "SPD decoders hand nanosecond values to the same conversion path: txx_ns = mtb*MTB + twos_complement(ftb)*FTB and no "
                           "rounding call in get_timings", 2)
-    r = init_keywords(ctx, ob1)
-    if r is None:
-        return
-    kws, call = r
-    for f in MIN_FIELDS + ["tREFI"]:
-        if f not in kws:
-            ob1.unknown("TimingSettings field %s is not filled by SDRAMModule.__init__" % f)
-    period_key = "/(1000000000.0, self.clk_freq)"
+    # SDRAMModule.__init__ is evaluated symbolically with `get(name[, key])` replaced by an opaque datasheet entry Timing(get(name).ck, get(name).ns):
+    # every TimingSettings field becomes a term over those entries, whatever helpers / local functions the source uses to build it
+    period_key = "/(1000000000.0, clk_freq)"
     seen_bad = set()
+    mrel = ctx.repo.module(MOD).rel()
+    init_line = 0
     for rate in ("1:1", "1:2", "1:4"):
         denom = int(rate.split(":")[1])
-        cache = {}
-        for f, (meth, kw, arg0, whole) in kws.items():
-            ck = (meth, repr(sorted((k, str(v)) for k, v in kw.items())))
-            if ck not in cache:
-                cache[ck] = conv_term(ctx, ob1, meth, kw, rate)
-            T = cache[ck]
-            if T is None:
-                continue
-            ns_paths = paths_to(T, "timing.ns")
-            ck_paths = paths_to(T, "timing.ck")
+        keys_used = {}
+
+        def get_stub(el, f_, args, kwargs, keys_used=keys_used):
+            nm = args[0].v if args and isinstance(args[0], Const) else str(args[0]) if args else "?"
+            k_ = args[1] if len(args) > 1 else kwargs.get("key")
+            if k_ is not None and not (isinstance(k_, Const) and k_.v is None):
+                keys_used.setdefault(nm, []).append(k_)
+            tcls = el.modenv(MOD).vars.get("Timing")
+            return el.instantiate(tcls, [Sym("get(%s).ck" % nm), Sym("get(%s).ns" % nm)], {})
+        try:
+            _, el = eval_method(ctx.repo, MOD, "SDRAMModule", "__init__", [Sym("clk_freq"), Const(rate)], {"fine_refresh_mode": Sym("fine_refresh_mode")},
+                                stubs={"SDRAMModule.get": get_stub})
+        except KeyError as e:
+            ob1.unknown("SDRAMModule.__init__ vanished: %s" % e)
+            return
+        ctx.stat("methods_evaluated")
+        ts = el.design.top.attrs.get("timing_settings")
+        if not ob1.need(isinstance(ts, Obj) and ts.cls == "TimingSettings" and not el.design.unknown, "SDRAMModule.__init__ does not build TimingSettings in an evaluable way (%s)" % el.design.unknown[:2]):
+            return
+        init_line = ts.loc[1] if ts.loc else 0
+        fields = dict(ts.kwargs)
+        for f in MIN_FIELDS + ["tREFI"]:
+            if f not in fields:
+                ob1.unknown("TimingSettings field %s is not filled by SDRAMModule.__init__" % f)
+        for f, T in fields.items():
+            # optional entries: `None if get(x) is None else conv(get(x))` - the stub's entries are never None, so the conversion arm is what remains
+            exp_names = ["tRP", "tRAS"] if f == "tRC" else [f]
+            atoms = sorted(x for x in support(T) if x.startswith("get("))
+            ns_atoms = [x for x in atoms if x.endswith(".ns")]
+            ck_atoms = [x for x in atoms if x.endswith(".ck")]
+            ns_paths = [p_ for a_ in ns_atoms for p_ in paths_to(T, a_)]
+            ck_paths = [p_ for a_ in ck_atoms for p_ in paths_to(T, a_)]
             dirs_ns = [[ROUND[o] for o in p if o in ROUND] for p in ns_paths]
             dirs_ck = [[ROUND[o] for o in p if o in ROUND] for p in ck_paths]
-            # the nanosecond numerator and divisor
-            div = find_sub(T, lambda x: isinstance(x, Op) and x.op == "/" and "timing.ns" in support(x.args[0]))
+            div = find_sub(T, lambda x: isinstance(x, Op) and x.op == "/" and any(a_ in support(x.args[0]) for a_ in ns_atoms))
             info = {"rate": rate, "term": key(T), "ns_rounding": dirs_ns, "ck_rounding": dirs_ck}
+            ns_sum = None
+            for e_ in exp_names:
+                ns_sum = Lin.atom("get(%s).ns" % e_) if ns_sum is None else ns_sum + Lin.atom("get(%s).ns" % e_)
+            ck_sum = None
+            for e_ in exp_names:
+                x_ = Sym("get(%s).ck" % e_)
+                ck_sum = x_ if ck_sum is None else Op("+", (ck_sum, x_))
+            if rate == "1:1":
+                # C16.4 provenance
+                got = sorted({x[4:].split(")")[0] for x in atoms})
+                ob4.instance("field %s <- datasheet entries" % f, got)
+                if f in MIN_FIELDS + ["tREFI"] and got != sorted(exp_names):
+                    ob4.refute("source:%s" % f, "TimingSettings.%s is converted from %s, expected the datasheet entr%s %s" %
+                               (f, got, "ies" if len(exp_names) > 1 else "y", " + ".join(exp_names)), (mrel, init_line))
+                if f in ("tREFI", "tRFC"):
+                    ks_ = keys_used.get(f, [])
+                    if not ks_ or not all("fine_refresh_mode" in support(k_) for k_ in ks_):
+                        ob4.refute("fine-refresh-key:%s" % f, "%s is not looked up with the fine refresh mode (keys %s)" % (f, [key(k_) for k_ in ks_]), (mrel, init_line))
             if f == "tREFI":
-                ob3.instance("tREFI @%s via %s(%s)" % (rate, meth, ", ".join("%s=%s" % kv for kv in kw.items())), info)
+                ob3.instance("tREFI @%s" % rate, info)
                 if not ns_paths:
                     ob3.unknown("tREFI conversion does not depend on the nanosecond value")
                     continue
                 if any(UP in d or NEAREST in d for d in dirs_ns) or any(not d for d in dirs_ns):
                     ob3.refute("tREFI-rounding", "the refresh interval is converted with %s on its nanosecond path (%s): the interval handed to "
                                "the controller can exceed the datasheet tREFI by up to one controller cycle" %
-                               (sorted({o for p in ns_paths for o in p if o in ROUND}) or "no rounding", key(T)), (ctx.repo.module(MOD).rel(), whole.lineno))
+                               (sorted({o for p in ns_paths for o in p if o in ROUND}) or "no rounding", key(T)), (mrel, init_line))
                 if div is not None:
                     n = lin(div.args[0])
-                    if n is None or n != lin(Sym("timing.ns")):
-                        ob3.refute("tREFI-margin", "the refresh interval has a margin added before conversion: %s" % key(div.args[0]),
-                                   (ctx.repo.module(MOD).rel(), whole.lineno))
+                    if n is None or n != ns_sum:
+                        ob3.refute("tREFI-margin", "the refresh interval has a margin added before conversion: %s" % key(div.args[0]), (mrel, init_line))
                     if key(div.args[1]) != period_key:
                         ob3.refute("tREFI-period", "refresh interval divided by %s, expected the controller clock period 1e9/clk_freq" % key(div.args[1]), None)
-                if any("min" in p for p in ns_paths):
-                    pass
                 continue
             if f not in MIN_FIELDS:
                 continue
             if rate == "1:4":
-                ob1.instance("%s via %s" % (f, meth), info)
+                ob1.instance("%s" % f, info)
             bad = None
             if not ns_paths or not ck_paths:
                 bad = "does not depend on both the ns and the ck component (%s)" % key(T)
@@ -166,37 +199,30 @@ def run(ctx):
                 bad = "a min() sits on the path"
             elif not (isinstance(T, Op) and T.op == "max"):
                 bad = "the ck and ns requirements are not combined by max(): %s" % key(T)
-            if bad and ("shape", meth, rate, bad) in seen_bad:
+            shape_key = key(T).replace("get(%s)" % f, "get(<f>)")
+            if bad and ("shape", shape_key if f != "tRC" else f, rate, bad[:40]) in seen_bad:
                 continue
             if bad:
-                seen_bad.add(("shape", meth, rate, bad))
-                ob1.refute("%s@%s:shape" % (f, rate), "%s at rate %s: %s" % (f, rate, bad), (ctx.repo.module(MOD).rel(), whole.lineno), info)
+                seen_bad.add(("shape", shape_key if f != "tRC" else f, rate, bad[:40]))
+                ob1.refute("%s@%s:shape" % (f, rate), "%s at rate %s: %s" % (f, rate, bad), (mrel, init_line), info)
                 continue
-            # ck path: ck / denom
-            ckdiv = find_sub(T, lambda x: isinstance(x, Op) and x.op == "/" and "timing.ck" in support(x.args[0]))
-            if ckdiv is None or not (lin_eq(ckdiv.args[0], Sym("timing.ck")) and isinstance(ckdiv.args[1], Const) and ckdiv.args[1].v == denom):
-                ob1.refute("%s@%s:ck" % (f, rate), "%s: clock count converted as %s, expected timing.ck/%d" % (f, key(ckdiv) if ckdiv else None, denom), None)
+            ckdiv = find_sub(T, lambda x: isinstance(x, Op) and x.op == "/" and any(a_ in support(x.args[0]) for a_ in ck_atoms))
+            if ckdiv is None or not (lin_eq(ckdiv.args[0], ck_sum) and isinstance(ckdiv.args[1], Const) and ckdiv.args[1].v == denom):
+                ob1.refute("%s@%s:ck" % (f, rate), "%s: clock count converted as %s, expected (datasheet clocks)/%d" % (f, key(ckdiv) if ckdiv else None, denom), (mrel, init_line))
             if div is None or key(div.args[1]) != period_key:
-                ob1.refute("%s@%s:period" % (f, rate), "%s: nanoseconds divided by %s, expected 1e9/clk_freq" % (f, key(div.args[1]) if div else None), None)
+                ob1.refute("%s@%s:period" % (f, rate), "%s: nanoseconds divided by %s, expected 1e9/clk_freq" % (f, key(div.args[1]) if div else None), (mrel, init_line))
                 continue
             n = lin(div.args[0])
-            exp = Lin.atom("timing.ns") + Lin.atom(period_key) * Lin.const(Fraction(denom - 1, denom))
+            exp = ns_sum + Lin.atom(period_key) * Lin.const(Fraction(denom - 1, denom))
             okm = n is not None and all(abs(float(n.t.get(k, 0)) - float(exp.t.get(k, 0))) < 1e-9 for k in set(n.t) | set(exp.t))
             if f == "tRP":
-                ob2.instance("margin @%s" % rate, {"numerator": key(div.args[0]), "expected": "timing.ns + %s*period" % Fraction(denom - 1, denom)})
+                ob2.instance("margin @%s" % rate, {"numerator": key(div.args[0]), "expected": "ns + %s*period" % Fraction(denom - 1, denom)})
             if not okm:
-                ob2.refute("%s@%s:margin" % (f, rate), "%s at rate %s: numerator is %s, expected timing.ns + (1 - 1/%d)*period (the two commands "
-                           "can sit on the least favourable phases)" % (f, rate, key(div.args[0]), denom), (ctx.repo.module(MOD).rel(), whole.lineno))
-    # C16.4 provenance of each field
-    for f, (meth, kw, arg0, whole) in kws.items():
-        src = ast.unparse(arg0) if arg0 is not None else ""
-        gets = [c.args[0].value for c in ast.walk(arg0) if isinstance(c, ast.Call) and isinstance(c.func, ast.Attribute) and c.func.attr == "get"
-                and c.args and isinstance(c.args[0], ast.Constant)] if arg0 is not None else []
-        exp = ["tRP", "tRAS"] if f == "tRC" else [f]
-        ob4.instance("field %s <- %s" % (f, src), gets)
-        if sorted(gets) != sorted(exp) or (f == "tRC" and not isinstance(arg0, ast.BinOp)) or (f == "tRC" and not isinstance(arg0.op, ast.Add)):
-            ob4.refute("source:%s" % f, "TimingSettings.%s is converted from %s, expected the datasheet entr%s %s" %
-                       (f, src, "ies" if len(exp) > 1 else "y", " + ".join(exp)), (ctx.repo.module(MOD).rel(), whole.lineno))
+                if ("margin", rate, key(div.args[0]).replace("get(%s)" % f, "get(<f>)")) in seen_bad and f != "tRC":
+                    continue
+                seen_bad.add(("margin", rate, key(div.args[0]).replace("get(%s)" % f, "get(<f>)")))
+                ob2.refute("%s@%s:margin" % (f, rate), "%s at rate %s: numerator is %s, expected ns + (1 - 1/%d)*period (the two commands "
+                           "can sit on the least favourable phases)" % (f, rate, key(div.args[0]), denom), (mrel, init_line))
     try:
         other = Obj("Timing"); other.name = "other"; other.kind = "param"
         r, el = eval_method(ctx.repo, MOD, "Timing", "__add__", [other])
@@ -208,6 +234,7 @@ def run(ctx):
         ob4.unknown("Timing.__add__ not found: %s" % e)
     # C16.5 who-overrides + literal well-formedness
     m = ctx.repo.module(MOD)
+    MODTREE[0] = m.tree
     nmod = 0
     def derives(cn, seen=()):
         node = m.classes.get(cn)
@@ -291,6 +318,9 @@ def run(ctx):
             ob6.refute("spd-txx:%s" % cname, "%s.txx_ns = %s, expected mtb*medium_timebase + twos_complement(ftb)*fine_timebase" % (cname, key(r)), None)
 
 
+MODTREE = [None]
+
+
 def literal_problem(name, node, cnode):
     def num(n):
         if isinstance(n, ast.Constant) and (n.value is None or isinstance(n.value, (int, float))) and not isinstance(n.value, bool):
@@ -304,11 +334,16 @@ def literal_problem(name, node, cnode):
     def pair(n):
         return isinstance(n, ast.Tuple) and len(n.elts) == 2 and all(num(e) for e in n.elts)
 
-    def resolve(n):
-        if isinstance(n, ast.Name):
-            for b in cnode.body:
-                if isinstance(b, ast.Assign) and any(isinstance(t, ast.Name) and t.id == n.id for t in b.targets):
-                    return b.value
+    def resolve(n, depth=4):
+        # a name defined in the class body or at module level, possibly copied with dict(...)
+        while depth and isinstance(n, ast.Call) and isinstance(n.func, ast.Name) and n.func.id == "dict" and len(n.args) == 1 and not n.keywords:
+            n = n.args[0]
+            depth -= 1
+        if isinstance(n, ast.Name) and depth:
+            for body in (cnode.body, MODTREE[0].body if MODTREE[0] is not None else []):
+                for b in body:
+                    if isinstance(b, ast.Assign) and any(isinstance(t, ast.Name) and t.id == n.id for t in b.targets):
+                        return resolve(b.value, depth - 1)
         return n
     node = resolve(node)
     if isinstance(node, ast.Subscript) and isinstance(node.slice, ast.Constant):
